@@ -63,6 +63,30 @@ def ingest_anatomy(ctx: Any) -> Dict[str, Any]:
     return an
 
 
+def previous_obligations(ctx: Any, R: str) -> List[Ob]:
+    """`previous` of every (new, previous) pair is exactly the result of the cache lookup for that record:
+    the name handed to RecordUpdate has one definition in the loop, the unique lookup of the same record."""
+    an = ingest_anatomy(ctx)
+    f: FuncInfo = an['f']
+    loop = an['loop']
+    upd = set(an['updates'])
+    obs: List[Ob] = []
+    for c in ast.walk(loop):
+        if isinstance(c, ast.Call) and call_name(c) in ('append',) and isinstance(c.func, ast.Attribute) and isinstance(c.func.value, ast.Name) and c.func.value.id in upd:
+            arg = c.args[0] if c.args else None
+            good = False
+            why = ''
+            if isinstance(arg, ast.Call) and call_name(arg) == 'RecordUpdate' and len(arg.args) == 2:
+                new_, old_ = arg.args
+                defs = [st for st in ast.walk(loop) if isinstance(st, (ast.Assign, ast.AugAssign, ast.AnnAssign)) and any(isinstance(t, ast.Name) and t.id == norm(old_) for t in (st.targets if isinstance(st, ast.Assign) else [st.target]))]
+                lookups = [st for st in defs if isinstance(st, ast.Assign) and isinstance(st.value, ast.Call) and call_name(st.value) == 'async_get_unique' and st.value.args and norm(st.value.args[0]) == norm(new_)]
+                good = len(defs) == 1 and len(lookups) == 1
+                if len(defs) > 1:
+                    why = f'`{norm(old_)}` is reassigned after the lookup: ' + '; '.join(norm(d)[:60] for d in defs if d not in lookups)
+            obs.append(ob(R, f, c, '`previous` of each pair is the cached copy looked up for that same record (None iff none existed)', good, why))
+    return obs
+
+
 @rule('C06.ORDER', 'D', expect_min=14)
 def order(ctx: Any) -> List[Ob]:
     """Effect order of response ingestion for all datagrams: (i) inside the record
@@ -115,20 +139,7 @@ def order(ctx: Any) -> List[Ob]:
     ctx.counters['record_loop_paths'] = n_paths
     if n_paths < 3:
         raise AnalysisError('record loop has fewer paths than confirmed by hand (3: new, refresh, goodbye, ignore)')
-    # previous is the looked-up entry for the same record
-    for c in ast.walk(loop):
-        if isinstance(c, ast.Call) and call_name(c) in ('append',) and isinstance(c.func, ast.Attribute) and isinstance(c.func.value, ast.Name) and c.func.value.id in upd:
-            arg = c.args[0] if c.args else None
-            good = False
-            if isinstance(arg, ast.Call) and call_name(arg) == 'RecordUpdate' and len(arg.args) == 2:
-                new_, old_ = arg.args
-                # old_ must be a name bound from cache.async_get_unique(new_)
-                for st in ast.walk(loop):
-                    if isinstance(st, ast.Assign) and any(isinstance(t, ast.Name) and t.id == norm(old_) for t in st.targets):
-                        v = st.value
-                        if isinstance(v, ast.Call) and call_name(v) == 'async_get_unique' and v.args and norm(v.args[0]) == norm(new_):
-                            good = True
-            obs.append(ob(R, f, c, '`previous` of each pair is the cached copy looked up for that same record (None iff none existed)', good))
+    obs.extend(previous_obligations(ctx, R))
     # collections are not written after the loop; updates is an ordered list; removes is a set
     after = False
     late: List[str] = []
@@ -273,6 +284,52 @@ def dedup(ctx: Any) -> List[Ob]:
     return obs
 
 
+def refresh_obligations(ctx: Any, R: str) -> List[Ob]:
+    """The refresh of an already cached record takes the received record's current lifetime: reset_ttl(record),
+    or set_created_ttl(record.created, record.ttl) -- never a snapshot of the TTL taken before the pointer floor."""
+    an = ingest_anatomy(ctx)
+    f: FuncInfo = an['f']
+    loop = an['loop']
+    obs: List[Ob] = []
+    recvar = norm(loop.target)
+    floor_calls = [c for c in ast.walk(loop) if isinstance(c, ast.Call) and call_name(c) == 'set_created_ttl' and isinstance(c.func, ast.Attribute) and norm(c.func.value) == recvar]
+    if len(floor_calls) != 1:
+        raise AnalysisError('anchor vanished: the PTR floor `<record>.set_created_ttl(...)` in the record loop')
+    fc = floor_calls[0]
+    # --- refresh of an existing entry takes the received record's *current* lifetime (after the floor)
+    entry_vars = [st.targets[0].id for st in ast.walk(loop) if isinstance(st, ast.Assign) and isinstance(st.targets[0], ast.Name) and isinstance(st.value, ast.Call) and call_name(st.value) == 'async_get_unique']
+    refresh = [c for c in ast.walk(loop) if isinstance(c, ast.Call) and call_name(c) in ('reset_ttl', 'set_created_ttl') and isinstance(c.func, ast.Attribute) and norm(c.func.value) in entry_vars]
+    if not refresh:
+        raise AnalysisError('anchor vanished: refresh of the cached entry in the record loop')
+    cfg0 = cfg_of(f.node)
+    fnode = next(n for n in cfg0.nodes if any(c is fc for c in n.calls()))
+    for rc_ in refresh:
+        if call_name(rc_) == 'reset_ttl':
+            good = len(rc_.args) == 1 and norm(rc_.args[0]) == recvar
+            why = ''
+        else:
+            want = [f'{recvar}.created', f'{recvar}.ttl']
+            good = len(rc_.args) == 2
+            why = ''
+            unode = next(n for n in cfg0.nodes if any(c is rc_ for c in n.calls()))
+            for a, w in zip(rc_.args, want):
+                if norm(a) == w:
+                    continue
+                if isinstance(a, ast.Name):
+                    # a local snapshot: must be taken from the record after the floor can no longer change it
+                    snaps = [n for n in cfg0.nodes if n.kind == 'stmt' and isinstance(n.ast, ast.Assign) and norm(n.ast.targets[0]) == a.id]
+                    src_ok = bool(snaps) and all(norm(n.ast.value) == w for n in snaps)
+                    stale = any(cfg0.can_reach(sn, fnode) and cfg0.can_reach(fnode, unode) and sn.in_loop == fnode.in_loop for sn in snaps)
+                    if not src_ok or stale:
+                        good = False
+                        why = f'`{a.id}` is a snapshot of {w} taken before the pointer-TTL floor may change it' if stale else f'`{a.id}` is not {w}'
+                else:
+                    good = False
+                    why = f'`{norm(a)}` is not {w}'
+        obs.append(ob(R, f, rc_, 'a refresh gives the cached entry the creation time and the (floored) TTL of the record just received', good, why))
+    return obs
+
+
 @rule('C06.FLOORFLUSH', 'D', expect_min=20)
 def floorflush(ctx: Any) -> List[Ob]:
     """Pointer-TTL floor and cache-flush mark as decision tables over boundary
@@ -287,10 +344,12 @@ def floorflush(ctx: Any) -> List[Ob]:
     obs: List[Ob] = []
     loop = an['loop']
     # --- floor
-    floor_calls = [c for c in ast.walk(loop) if isinstance(c, ast.Call) and call_name(c) == 'set_created_ttl']
+    recvar = norm(loop.target)
+    floor_calls = [c for c in ast.walk(loop) if isinstance(c, ast.Call) and call_name(c) == 'set_created_ttl' and isinstance(c.func, ast.Attribute) and norm(c.func.value) == recvar]
     if len(floor_calls) != 1:
-        raise AnalysisError('anchor vanished: the PTR floor `set_created_ttl` in the record loop')
+        raise AnalysisError('anchor vanished: the PTR floor `<record>.set_created_ttl(...)` in the record loop')
     fc = floor_calls[0]
+    obs.extend(refresh_obligations(ctx, R))
     okv, v = prog.try_fold(f.module, fc.args[1]) if len(fc.args) == 2 else (False, None)
     obs.append(ob(R, f, fc, 'the floor sets exactly 1125 s and keeps the creation time', okv and v == 1125 and isinstance(fc.args[0], ast.Attribute) and fc.args[0].attr == 'created', f'ttl arg folds to {v}'))
     cfg = cfg_of(f.node)
@@ -344,16 +403,29 @@ def floorflush(ctx: Any) -> List[Ob]:
     # --- flush mark
     g = prog.func('zeroconf._cache.DNSCache.async_mark_unique_records_older_than_1s_to_expire')
     gcfg = cfg_of(g.node)
-    marks = [c for c in ast.walk(g.node) if isinstance(c, ast.Call) and call_name(c) == 'set_created_ttl']
-    if len(marks) != 1:
-        raise AnalysisError('anchor vanished: flush mark set_created_ttl')
-    mk = marks[0]
     now_param = g.params[3] if len(g.params) > 3 else 'now'
-    okt, tv = prog.try_fold(g.module, mk.args[1]) if len(mk.args) == 2 else (False, None)
-    obs.append(ob(R, g, mk, 'a flushed record is set to expire one second from now: (now, 1)', okt and tv == 1 and norm(mk.args[0]) == now_param))
+    marks = [c for c in ast.walk(g.node) if isinstance(c, ast.Call) and call_name(c) == 'set_created_ttl']
+    from .common import attr_stores as _as
+
+    direct = [(t, st) for t, st in _as(g.node) if t.attr in ('ttl', 'created')]
+    if not marks and not direct:
+        raise AnalysisError('anchor vanished: the flush mark (no lifetime change in the flush function)')
+    mark_nodes_ast: List[ast.AST] = list(marks) + [st for _, st in direct]
+    if len(marks) == 1 and not direct:
+        mk = marks[0]
+        okt, tv = prog.try_fold(g.module, mk.args[1]) if len(mk.args) == 2 else (False, None)
+        obs.append(ob(R, g, mk, 'a flushed record is set to expire one second from now: (now, 1)', okt and tv == 1 and norm(mk.args[0]) == now_param))
+    else:
+        vals = {t.attr: norm(st.value) for t, st in direct if isinstance(st, ast.Assign)}
+        okd = not marks and vals.get('created') == now_param and prog.try_fold(g.module, next((st.value for t, st in direct if t.attr == 'ttl' and isinstance(st, ast.Assign)), ast.Constant(None))) == (True, 1)
+        obs.append(ob(R, g, mark_nodes_ast[0], 'a flushed record is set to expire one second from now: (now, 1)', okd, f'lifetime written as {vals}; the creation time must become the flush time, else the record is already expired when marked'))
 
     def eff_m(node: Any, evl: Any) -> List[Any]:
-        return ['MARK' for c in node.calls() if c is mk]
+        if any(c is m_ for c in node.calls() for m_ in marks):
+            return ['MARK']
+        if node.kind == 'stmt' and any(node.ast is st for _, st in direct):
+            return ['MARK']
+        return []
 
     for age in (0, 999, 1000, 1001, 5000):
         for in_answers in (False, True):
